@@ -70,6 +70,8 @@ def floors(tier):
         "decided:clock_monotone_events": 100000 * k,
         "runs:clock_sum_checked": 400 * k,
         "decided:outside_time_charges_nonzero": 50000 * k,
+        "decided:completion_time_polls": 20000 * k,
+        "decided:completions_observed_at_or_after_completion_time": 300 * k,
         "runs:max_resource_attr": 100 * k,
         "runs:per_trial_seed": 100 * k,
     }
@@ -135,6 +137,25 @@ def _check_trial_with_seed(o, p, tid, tr, ci, seed_, obj, et_i, cfg_d, mra, ckpt
             for i in range(1, len(e)):
                 e[i] = max(e[i], e[i - 1] + 0.01)
         t_start = run["t_sched"] + cfg_d.delay_start
+        if e and run.get("polls"):
+            # the job ends by itself delay_complete_after_final_report after its last report: never visible as completed
+            # before, never still in progress after (polls taken while no stop / pause was under way)
+            t_done = t_start + e[-1] + cfg_d.delay_complete_after_final_report
+            tol = 1e-7 * (1.0 + abs(t_done))
+            for T, st in run["polls"]:
+                if T is None or abs(T - t_done) <= tol:
+                    continue
+                o.count("decided:completion_time_polls")
+                if st == "Completed" and T < t_done:
+                    o.violate("completion_after_last_result", "job_visible_as_completed_before_last_result_plus_delay",
+                              {"trial": tid, "run": ri, "poll_clock": T, "completion_time": t_done, "delay_complete": cfg_d.delay_complete_after_final_report})
+                    break
+                if st == "Completed":
+                    o.count("decided:completions_observed_at_or_after_completion_time")
+                if st == "InProgress" and T > t_done:
+                    o.violate("completion_after_last_result", "job_still_in_progress_after_its_completion_time",
+                              {"trial": tid, "run": ri, "poll_clock": T, "completion_time": t_done, "delay_complete": cfg_d.delay_complete_after_final_report})
+                    break
         for x in res:
             lvl = int(x["epoch"])
             i = lvl - start
@@ -204,6 +225,7 @@ def run_case(spec):
     last_t = None
     prev_t = None
     tuning_ended = False
+    live = {}
     for idx, k, pl in r.rec.events:
         t = pl.get("t")
         if t is not None:
@@ -225,12 +247,26 @@ def run_case(spec):
             tid = pl["ret"]["trial_id"]
             trials[tid] = {"config": pl["ret"]["config"], "runs": [{"t_sched": t, "results": [], "resume_from": None, "config": pl["ret"]["config"]}],
                            "paused_level": None}
+            live[tid] = True
         elif k == "b.resume_trial.ret":
             tid = pl["trial_id"]
             tr = trials[tid]
             tr["runs"].append({"t_sched": t, "results": [], "resume_from": tr["paused_level"], "config": pl["ret"]["config"]})
+            live[tid] = True
+        elif k in ("b.stop_trial.call", "b.stop_all.call"):
+            if k == "b.stop_all.call":
+                live.clear()
+            else:
+                live[pl["trial_id"]] = False
+        elif k == "b.fetch_status_results.ret":
+            for tid_, st_ in pl["ret"]["status"].items():
+                if live.get(tid_) and tid_ in trials:
+                    trials[tid_]["runs"][-1].setdefault("polls", []).append((t, st_))
+                    if st_ != "InProgress":
+                        live[tid_] = False
         elif k == "b.pause_trial.call":
             tid = pl["trial_id"]
+            live[tid] = False
             res = pl.get("result")
             if res is not None and "epoch" in res:
                 trials[tid]["paused_level"] = int(res["epoch"])
